@@ -408,6 +408,13 @@ def level3(tier, seed=0, coarse=False):
         reg['TD%d' % i] = S.Typedef('TD%d' % i, f)
         reg['TTD%d' % i] = S.Typedef('TTD%d' % i, 'TD%d' % i)
         mids.append('TTD%d' % i)
+    # typedefs (one and two levels) of a struct that is dynamic only through a nested dynamic struct
+    for j, d in enumerate(dyn[:2]):
+        nest = 'NEST%d' % j
+        reg[nest] = S.Struct(nest, expand((('plain', 'u16'), ('plain', d), ('plain', 'u8'))))
+        reg['TN%d' % j] = S.Typedef('TN%d' % j, nest)
+        reg['TTN%d' % j] = S.Typedef('TTN%d' % j, 'TN%d' % j)
+        mids += ['TN%d' % j, 'TTN%d' % j]
     for u in unl[:3]:
         name = 'L2_%d' % k
         k += 1
